@@ -25,11 +25,11 @@ const builtinDescMarker = "\x00builtin-description"
 
 // ConnCase is what one client connection sends.
 type ConnCase struct {
-	Frames  []Blob `json:"frames"`            // complete frames, without the NUL
-	Tail    Blob   `json:"tail,omitempty"`    // unterminated trailing bytes
-	Cuts    []int  `json:"cuts,omitempty"`    // segment sizes, cycled; empty = one write
-	AbortAt int    `json:"abort_at"`          // -1: none; else the client closes after this many bytes
-	NoRead  bool   `json:"no_read,omitempty"` // the client never reads (and then closes)
+	Frames  []Blob `json:"frames"`             // complete frames, without the NUL
+	Tail    Blob   `json:"tail,omitempty"`     // unterminated trailing bytes
+	Cuts    []int  `json:"cuts,omitempty"`     // segment sizes, cycled; empty = one write
+	AbortAt int    `json:"abort_at"`           // -1: none; else the client closes after this many bytes
+	NoRead  bool   `json:"no_read,omitempty"`  // the client never reads (and then closes)
 	PauseAt int    `json:"pause_at,omitempty"` // 1-based index of the segment after which the client pauses (0 = never)
 	PauseMS int    `json:"pause_ms,omitempty"`
 }
